@@ -19,6 +19,7 @@ RULE = (
     "the same over a real StdioClient with the answers arriving behind a burst of 0..400 notifications in 1..7 pipe reads; n<=3 enumerated exhaustively (all answer permutations x 5 instants per answer x 3 notification patterns), n=4 drawn by Hypothesis; "
     "a recording proxy logs which caller task dequeued which item; non-trivial = answer order differs from request order or a notification sits between two answers; "
     "distinct = distinct full case"
+    "; added in rounds 6-7 of the seeded changes: caller-named ids differing only in JSON type; answers packed into batch arrays (stdio); an id reused after a timeout while a peer is ahead in the queue"
 )
 ASSUMPTIONS = [
     "callers share the stream pair exactly as application code sharing one connection does (send_message called concurrently)",
